@@ -188,3 +188,14 @@ def r5_conventions(ctx):
 
 
 RULES = [('R1', r1_readers), ('R2', r2_layering), ('R3', r3_siblings), ('R4', r4_values), ('A4', r5_conventions)]
+
+
+def r5_lexical(ctx):
+    """R5 decimal literals of every separator convention are number tokens (E7b lexical competition model: month stage, regex families in TOKEN_REGEX_PARSER order with first-claim-wins,
+    alias stage; samples generated from the configuration)"""
+    from ..lexrules import run_samples, number_samples, based_samples, money_samples, unit_samples, month_samples, zone_samples, duration_samples, percent_samples, keyword_samples
+    ctx.rule('R5', 'decimal literals of every separator convention are number tokens', floor=80)
+    run_samples(ctx, 'R5', number_samples())
+
+
+RULES.append(('R5', r5_lexical))
